@@ -33,9 +33,11 @@ type when struct {
 }
 
 type base struct {
-	w     *core.World
-	r     *rig.Rig
-	whens []*when
+	tripCtx func() time.Duration // per-trip context timeout (nil = 5 s)
+	tried   int                  // connections on which the application has made its round trip
+	w       *core.World
+	r       *rig.Rig
+	whens   []*when
 
 	active  bool
 	conns   []*refhsms.Conn
@@ -43,12 +45,14 @@ type base struct {
 	stop    bool
 
 	usedListeners int
-	okTrips   int
-	lastOKGen int
-	tripErrs  int
+	okTrips       int
+	lastOKGen     int
+	tripErrs      int
 }
 
-func (b *base) when(cond func() bool, then func()) { b.whens = append(b.whens, &when{cond: cond, then: then}) }
+func (b *base) when(cond func() bool, then func()) {
+	b.whens = append(b.whens, &when{cond: cond, then: then})
+}
 
 func (b *base) poll() {
 	for i := 0; i < len(b.whens); i++ {
@@ -84,17 +88,20 @@ func (b *base) onFrame(c *refhsms.Conn, f refhsms.RxFrame, send func(c *refhsms.
 func (b *base) tripLoop(gap time.Duration) {
 	w := b.w
 	n := 0
-	tried := 0
 	for !b.stop {
-		if b.r.C.State() != hsms.SelectedState || len(b.conns) <= tried {
+		if b.r.C.State() != hsms.SelectedState || len(b.conns) <= b.tried {
 			core.Sleep(5 * time.Millisecond)
 
 			continue
 		}
 		n++
 		gen := len(b.conns)
-		tried = gen
-		ctx, cancel := context.WithTimeout(context.Background(), 5*time.Second)
+		b.tried = gen
+		tmo := 5 * time.Second
+		if b.tripCtx != nil {
+			tmo = b.tripCtx()
+		}
+		ctx, cancel := context.WithTimeout(context.Background(), tmo)
 		rep, err := b.r.C.SendDataMessage(ctx, 1, 1, true, secs2.A("x"))
 		cancel()
 		if err == nil && rep != nil {
@@ -173,15 +180,15 @@ func sweepCase_(idx int) sweepCase { return sweepCases[idx%SweepCases] }
 
 type sweep struct {
 	base
-	cs       sweepCase
-	fired    bool
-	firedAt  time.Duration
-	sentLib  int // bytes the peer has queued towards the library on connection 1
-	exhausted bool
-	recovered bool
+	cs          sweepCase
+	fired       bool
+	firedAt     time.Duration
+	sentLib     int // bytes the peer has queued towards the library on connection 1
+	exhausted   bool
+	recovered   bool
 	recoveredAt time.Duration
-	bound    time.Duration
-	init     time.Duration
+	bound       time.Duration
+	init        time.Duration
 }
 
 func buildSweep() core.BuildFunc {
@@ -398,10 +405,11 @@ const (
 	fMidFrameStall // half a frame, then nothing: T8
 	fDialRefuse    // n refused dials (active) / listen errors (passive) before the next success
 	fDialBlackhole // dial that hangs until the connect timeout
+	fWriteStall    // the peer stops reading: our next write blocks until the write timeout
 	nFaults
 )
 
-var faultNames = []string{"fin", "rst", "silence", "select-refused", "select-silent", "mid-frame-stall", "dial-refuse", "dial-blackhole"}
+var faultNames = []string{"fin", "rst", "silence", "select-refused", "select-silent", "mid-frame-stall", "dial-refuse", "dial-blackhole", "write-stall"}
 
 type faultSpec struct {
 	Kind  int
@@ -410,17 +418,20 @@ type faultSpec struct {
 }
 
 type seededScn struct {
-	Active   bool
-	Init     time.Duration
-	Mult     float64
-	T5       time.Duration
+	Active         bool
+	Init           time.Duration
+	Mult           float64
+	T5             time.Duration
 	T3, T6, T7, T8 time.Duration
-	Linktest time.Duration
-	Thr      int
-	Suppress bool
-	ConnTO   time.Duration
-	Faults   []faultSpec
-	CloseEnd bool
+	Linktest       time.Duration
+	Thr            int
+	Suppress       bool
+	ConnTO         time.Duration
+	NoLinktest     bool // linktest off: every fault must be covered by another timer
+	WriteTO        time.Duration
+	ShortCtx       bool // the application's sends carry a context shorter than the write timeout
+	Faults         []faultSpec
+	CloseEnd       bool
 }
 
 type attempt struct {
@@ -432,19 +443,19 @@ type attempt struct {
 
 type seeded struct {
 	base
-	sc        seededScn
-	attempts  []*attempt // dial (active) / listen (passive) attempts in order
-	plan      []int      // outcome per upcoming attempt: 0 ok, 1 refuse, 2 blackhole
-	faultIdx  int
-	faultsDone bool
-	faultsDoneAt time.Duration
-	recovered bool
-	recoveredAt time.Duration
-	closedAt  time.Duration
-	closeRet  bool
-	okAttempts int
-	cover     time.Duration
-	bound     time.Duration
+	sc             seededScn
+	attempts       []*attempt // dial (active) / listen (passive) attempts in order
+	plan           []int      // outcome per upcoming attempt: 0 ok, 1 refuse, 2 blackhole
+	faultIdx       int
+	faultsDone     bool
+	faultsDoneAt   time.Duration
+	recovered      bool
+	recoveredAt    time.Duration
+	closedAt       time.Duration
+	closeRet       bool
+	okAttempts     int
+	cover          time.Duration
+	bound          time.Duration
 	lastFaultArmed bool
 }
 
@@ -462,6 +473,12 @@ func genSeeded(t *core.Tape) seededScn {
 	sc.Thr = 1 + t.Choose("scn", 3)
 	sc.Suppress = t.Choose("scn", 2) == 0
 	sc.ConnTO = 300 * time.Millisecond
+	sc.NoLinktest = t.Choose("scn", 3) == 2
+	sc.WriteTO = []time.Duration{300 * time.Millisecond, 150 * time.Millisecond}[t.Choose("scn", 2)]
+	sc.ShortCtx = t.Choose("scn", 2) == 1
+	if sc.NoLinktest {
+		sc.Linktest = 0
+	}
 	n := 1 + t.Choose("scn", 4)
 	for i := 0; i < n; i++ {
 		f := faultSpec{Kind: t.Choose("scn", nFaults), After: time.Duration(t.Choose("scn", 30)) * 10 * time.Millisecond, N: 1 + t.Choose("scn", 5)}
@@ -470,6 +487,9 @@ func genSeeded(t *core.Tape) seededScn {
 		}
 		if f.Kind == fDialBlackhole && !sc.Active {
 			f.Kind = fDialRefuse
+		}
+		if f.Kind == fSilence && sc.NoLinktest {
+			f.Kind = fWriteStall // plain silence is covered by the linktest only
 		}
 		sc.Faults = append(sc.Faults, f)
 	}
@@ -488,13 +508,16 @@ func buildSeeded() core.BuildFunc {
 		s.active = sc.Active
 		s.closedAt = -1
 		s.r = rig.New(w, rig.Opts{Active: sc.Active, Equip: !sc.Active, T3: sc.T3, T5: sc.T5, T6: sc.T6, T7: sc.T7, T8: sc.T8, Linktest: sc.Linktest, LinkThreshold: sc.Thr,
-			BackoffInit: sc.Init, BackoffMult: sc.Mult, CloseTimeout: time.Second, ConnectTimeout: sc.ConnTO, Suppress: &sc.Suppress})
+			BackoffInit: sc.Init, BackoffMult: sc.Mult, CloseTimeout: time.Second, ConnectTimeout: sc.ConnTO, Suppress: &sc.Suppress, WriteTimeout: &sc.WriteTO})
 		r := s.r
+		if sc.ShortCtx {
+			s.tripCtx = func() time.Duration { return sc.WriteTO / 3 }
+		}
 		r.P.AutoSelectRsp = -1
 		r.P.AutoLinktest = false
 		r.P.AutoDeselectRsp = false
 		// worst case for one covered stall, plus the longest run of failed attempts at the T5 ceiling
-		cover := sc.T3 + time.Duration(sc.Thr+1)*(sc.Linktest+sc.T6) + sc.T7 + sc.T8
+		cover := sc.T3 + time.Duration(sc.Thr+1)*(sc.Linktest+sc.T6) + sc.T7 + sc.T8 + 2*sc.WriteTO
 		s.cover = cover
 		s.bound = cover + 6*(sc.T5+sc.ConnTO) + sc.Init + time.Second
 		r.N.DialPlan = func(n int, address string) simnet.DialOutcome {
@@ -584,7 +607,7 @@ func (s *seeded) describe() map[string]any {
 	}
 
 	return map[string]any{"active": sc.Active, "backoffInitial": sc.Init.String(), "multiplier": sc.Mult, "T5": sc.T5.String(), "T6": sc.T6.String(), "T7": sc.T7.String(), "T8": sc.T8.String(),
-		"linktest": sc.Linktest.String(), "threshold": sc.Thr, "suppression": sc.Suppress, "faults": fs, "closeAtEnd": sc.CloseEnd}
+		"linktest": sc.Linktest.String(), "threshold": sc.Thr, "suppression": sc.Suppress, "writeTimeout": sc.WriteTO.String(), "shortSendCtx": sc.ShortCtx, "faults": fs, "closeAtEnd": sc.CloseEnd}
 }
 
 // genAfterFaults: the newest connection was established after the last fault was injected.
@@ -720,6 +743,11 @@ func (s *seeded) onOpen(c *refhsms.Conn) {
 				case fSilence:
 					c.L.Stall(true, 0)
 					c.L.Stall(false, 0)
+				case fWriteStall:
+					// the peer's receive window closes; it keeps its own direction open and stays quiet
+					c.L.SetCap(8)
+					c.L.Stall(false, 0)
+					s.tried = len(s.conns) - 1 // the application sends again: that write meets the closed window
 				}
 				next()
 			})
@@ -948,18 +976,18 @@ var s1Cases = func() []s1Case {
 }()
 
 type sweep1 struct {
-	w    *core.World
-	r    *rig.Rig1
-	cs   s1Case
-	links []*simnet.Link
-	fired bool
-	firedAt time.Duration
-	okGen int
-	stop  bool
-	recovered bool
-	recoveredAt time.Duration
-	bound time.Duration
-	init  time.Duration
+	w             *core.World
+	r             *rig.Rig1
+	cs            s1Case
+	links         []*simnet.Link
+	fired         bool
+	firedAt       time.Duration
+	okGen         int
+	stop          bool
+	recovered     bool
+	recoveredAt   time.Duration
+	bound         time.Duration
+	init          time.Duration
 	usedListeners int
 }
 
